@@ -561,6 +561,48 @@ def run(chk):
                        "what": "sized construct neither behaves like its small counterpart nor is refused with a limit error"})
         if len(chk.violations) > 4:
             break
+    # (4) nesting depths only an optimised build reaches (the unoptimised parser's stack budget stops near 50 blocks):
+    # block scopes left by break / continue, counted in 8 bits by the Break / Continue instructions
+    ok, out, th_rel = common.build_harness("release")
+    if not ok:
+        chk.proof_breaks.append("release harness does not build against /repo: " + out[-600:])
+    else:
+        def scopes_label(n):
+            body = ['let v: string = "outer"; let depth = 0;', "outer: {", '  let v = "scope 1"; depth = 1;']
+            body += ['{ let v = "scope %d"; depth = %d;' % (i, i) for i in range(2, n + 1)]
+            body += ["break outer;", "}" * (n - 1), "}", "'' + v + '/' + depth"]
+            return "\n".join(body), "outer/%d" % n
+
+        def scopes_loop(n):
+            body = ["function run(): string {", '  let v = "outer"; let rounds = 0; let depth = 0;', "  while (true) {",
+                    '    let v = "scope 1"; depth = 1; rounds++;']
+            body += ['{ let v = "scope %d"; depth = %d;' % (i, i) for i in range(2, n + 1)]
+            body += ["if (rounds < 3) continue; else break;", "}" * (n - 1), "  }", '  return v + "/" + rounds + "/" + depth;', "}", "run()"]
+            return "\n".join(body), "outer/3/%d" % n
+
+        def scopes_partial(n):
+            # a break that leaves all but the 3 outermost of n scopes
+            body = ['let v: string = "outer"; let seen = "";', '{ let v = "a"; { let v = "b"; inner: { let v = "c";']
+            body += ['{ let v = "s%d";' % i for i in range(4, n + 1)]
+            body += ["break inner;", "}" * (n - 3), "}", " seen = v; } }", "'' + v + '/' + seen"]
+            return "\n".join(body), "outer/b"
+        deep = []
+        for fam, gen in (("scopes-label", scopes_label), ("scopes-loop", scopes_loop), ("scopes-partial", scopes_partial)):
+            for n in ([4, 100, 200, 254, 255, 256, 257, 258, 300] + ([260, 400, 511, 512, 513] if chk.tier == "thorough" else [])):
+                src, exp = gen(n)
+                deep.append(("%s-%d" % (fam, n), fam, n, exp, src))
+        dres = common.run_programs(th_rel, [(nm, "", src) for nm, _, _, _, src in deep], tag="c10deep", timeout=900)
+        for nm, fam, n, exp, src in deep:
+            v = dres.get(nm, {})
+            stats["programs"] += 1
+            if v.get("status") == "complete" and v.get("value") == "str:" + exp:
+                continue
+            if v.get("status") == "error" and re.search(r"Too (many|much)", v.get("message", "")):
+                stats["limit_refusals"] += 1
+                continue
+            chk.violation({"family": fam, "size": n, "profile": "release", "program": src if len(src) < 6000 else src[:6000] + "...",
+                           "expected": exp, "observed": {x: v.get(x) for x in ("status", "value", "class", "message", "exit")},
+                           "what": "nested block scopes left by break / continue: neither the value of the small case nor a limit error"})
     for e in chk.known:
         if e["class"] in known_hit:
             chk.known_finding(e)
